@@ -112,6 +112,15 @@ def gen_cases(r: Run):
             # step-wise form — a filter threshold sitting exactly ON an intensity must keep that peak
             for t2 in (its[0], its[len(its) // 2], its[-1]):
                 add("fused", [Fraction(rng.choice([1, 2])), t2, Fraction(rng.randint(-64000, 64000), 64)], exact=True)
+            # ... and a truncation threshold exactly ON a cumulative sum (the prefix that REACHES it ends there), with a
+            # filter that keeps everything: how many peaks survive does not depend on rounding
+            cum = []
+            acc = Fraction(0)
+            for _, i in l:
+                acc += i
+                cum.append(acc)
+            for j in sorted(set([0, len(cum) // 2, max(0, len(cum) - 2)])):
+                add("fused", [cum[j], Fraction(rng.choice([0, -1])), Fraction(rng.randint(-64000, 64000), 64)], exact=True)
         a = rng.randint(0, n)
         b = rng.randint(a, n)
         add("slice", [Fraction(a), Fraction(b)])
